@@ -99,6 +99,9 @@ func newC16Sys(kind drv.Kind, mode string) (*c16Sys, error) {
 	if mode == "bases" {
 		hc = drv.Config{Kind: kind, HostBases: []string{drv.HostBase, "other.example"}}
 	}
+	if mode == "host-bucket+empty-base-list" {
+		hc = drv.Config{Kind: kind, HostBucket: true, HostBasesEmpty: true}
+	}
 	h, err := drv.NewWorld(hc)
 	if err != nil {
 		p.Close()
@@ -418,9 +421,13 @@ func runC16(c *engine.Ctx) {
 		depth = 6
 		kinds = []drv.Kind{drv.Mem, drv.Bolt, drv.MultiMem, drv.MultiDir}
 	}
-	c.SpecBudget = c.Budget() / time.Duration(2*len(kinds)+1)
+	c.SpecBudget = c.Budget() / time.Duration(2*len(kinds)+2)
 	for _, k := range kinds {
-		for _, mode := range []string{"host-bucket", "bases"} {
+		modes := []string{"host-bucket", "bases"}
+		if k == drv.Mem {
+			modes = append(modes, "host-bucket+empty-base-list")
+		}
+		for _, mode := range modes {
 			k, mode := k, mode
 			name := "C16/" + string(k) + "/" + mode
 			engine.RunSeq(c, engine.SeqSpec{Name: name, World: string(k) + "+" + mode, MaxDepth: depth,
